@@ -218,6 +218,11 @@ class Program:
             fn = Fn(self, f)
             self.fns[fn.id] = fn
         self.adts = {a['path']: a for a in d['adts']}
+        self.const_fns = {}
+        for c in d['consts']:
+            if c.get('blocks'):
+                self.const_fns[c['path']] = Fn(self, {'id': 'const ' + c['path'], 'kind': 'Const', 'parent': None, 'public': False, 'span': c['span'], 'body_span': c['span'],
+                                                      'arg_count': 0, 'locals': c['locals'], 'debug': [], 'blocks': c['blocks'], 'promoted': [], 'inputs': [], 'output': c['ty']})
         self.statics = d['statics']
         self.consts = d['consts']
         self.impls = d['impls']
@@ -617,6 +622,18 @@ class Fn:
     def local_ty(self, l):
         return self.locals[l]['ty']
 
+    def const_value(self):
+        """(const items only) the value of the initialiser: the expression assigned to the return place"""
+        if not hasattr(self, '_cv'):
+            self._cv = None
+            try:
+                ds = self.defs().get(0, [])
+                if len(ds) == 1:
+                    self._cv = expand(self, self.expr_of_def(ds[0]))
+            except Exception:
+                self._cv = None
+        return self._cv
+
     def is_dropflag(self, l):
         ds = self.defs().get(l, [])
         return self.local_ty(l) == 'bool' and l not in self.names and len(ds) >= 2 and all(
@@ -641,6 +658,12 @@ class Fn:
                 pr = [p_ for p_ in (self.raw.get('promoted') or []) if p_['i'] == int(m_.group(1))]
                 if pr and len(pr[0].get('strs', [])) == 1:
                     return ('str', pr[0]['strs'][0])
+            # a named `const` item of the crate whose initialiser was dumped: its value
+            cf = getattr(self.prog, 'const_fns', {}).get(op.get('named'))
+            if cf is not None and cf is not self and depth < 300:
+                v = cf.const_value()
+                if v is not None:
+                    return v
             return ('const', op.get('text', ''), op['ty'])
         if k in ('Copy', 'Move'):
             return self.expr_of_place(op['place'], depth + 1, seen)
